@@ -20,6 +20,7 @@ RULE = ("Hypothesis draws an invertible A = X diag(lam) X^-1 (real non-symmetric
         "eigenvector, eigenvectors of the small eigenvalues]: every eigenvector column has grade 1 and must be solved in one "
         "step whatever the other columns look like, no column may end above its initial residual.")
 ASSUMPTIONS = [
+    "tolerances >= 1e-6 are judged only where they cannot trigger: no sub-diagonal entry of the reference Arnoldi relation below 4 tol h21 (or 2 tol, cola's absolute clip) and no Hessenberg column below 40 tol max|H| (gmres masks columns below 10 tol max|H| as padding); otherwise the iterate only promises |r| <~ tol cond(A) |r0| and the case is counted inconclusive",
     "residuals compared at 1e-6 relative plus 1e3*eps*cond(X)*(|A||x|+|b|) plus 1e-6*|r0| (residuals below 1e-6 |r0| count as zero: iterations continued past a breakdown with tol near rounding level leave ~1e-9..1e-7 |r0|); matrices have cond(X) <= ~5 and |lam| in [0.5, 4]",
     "bulk payloads from numpy.default_rng(seed) with the seed a Hypothesis draw",
 ]
@@ -40,13 +41,18 @@ def cases(draw, tier):
     sub = draw(st.sampled_from(SUBS))
     nmax = 30 if tier == "quick" else 150
     n = draw(st.integers(1, 10)) if draw(st.integers(1, 4)) > 1 else draw(st.integers(1, nmax))
-    kind = draw(st.sampled_from(["real_pairs", "complex", "normal", "real_spd_like"]))
+    kind = draw(st.sampled_from(["real_pairs", "complex", "normal", "real_spd_like", "normal_wide"]))
     nrhs = draw(st.sampled_from([0, 0, 1, 2, 3]))
     g = draw(st.integers(1, n))
     case = {"sub": sub, "n": n, "kind": kind, "seed": draw(st.integers(0, 10**6)), "nrhs": nrhs,
             "rhs": draw(st.sampled_from(["generic", "generic", "grade"])), "g": g,
             "x0": draw(st.sampled_from(["zero", "drawn", "none"])), "m": draw(st.integers(1, n + 5)),
             "tol_exp": draw(st.sampled_from([-12, -10, -8, -6])), "crhs": draw(st.integers(1, 6)) == 1}
+    if kind == "normal_wide":
+        # a normal operator with condition number 1e3 and a loose (but legal) tolerance: still the residual minimiser
+        case["tol_exp"] = draw(st.sampled_from([-3, -4, -6]))
+        if sub in ("chain", "zero_residual"):
+            case["sub"] = sub = "minimal"
     if sub == "grade":
         case["rhs"] = "grade"
         case["m"] = draw(st.integers(g, n + 5))
@@ -61,6 +67,12 @@ def cases(draw, tier):
         case["x0"] = draw(st.sampled_from(["zero", "none"]))
         case["first"] = draw(st.sampled_from(["span", "span", "eig"] + ([] if "illcond_generic" in AVOID else ["generic"])))
         case["tol_exp"] = draw(st.sampled_from([-8, -6, -4]))
+    # the whole system rescaled by 10^ascale (the minimiser does not change). cola's Arnoldi stops normalising below the
+    # absolute value tol / 2: small scales with loose tolerances are open finding F-C13-absolute-breakdown
+    if sub in ("minimal", "grade", "via_inv") and kind != "normal_wide":
+        case["ascale"] = draw(st.sampled_from([0, 0, 3, 6, -2] + ([] if "abs_breakdown" in AVOID else [-4, -6])))
+        if case["ascale"] < 0 and "abs_breakdown" in AVOID:
+            case["tol_exp"] = min(case["tol_exp"], -8)
     # a real right-hand side (and guess) for a complex operator
     case["rrhs"] = kind == "complex" and draw(st.integers(1, 3)) == 1
     return case
@@ -95,13 +107,17 @@ def build(case):
         lam = np.linalg.eigvals(D)
     else:
         mag = 0.5 + 3.5 * rng.random(n)
+        if kind == "normal_wide":
+            mag = 4.0 * 10.0 ** (-3.0 * rng.random(n))
+            if n >= 2:
+                mag[0], mag[1] = 4.0, 4e-3
         if kind == "complex":
             lam = mag * np.exp(1j * rng.uniform(-1.2, 1.2, n))
         elif kind == "real_spd_like":
             lam = mag
         else:
             lam = mag * np.where(rng.random(n) < 0.8, 1, -1)
-        if kind == "normal":
+        if kind in ("normal", "normal_wide"):
             Q = KR.rand_unitary(n, seed, False)
             A, X = (Q * lam) @ Q.T, Q
         else:
@@ -136,6 +152,8 @@ def build(case):
         X0 = X0.astype(np.complex128) * (1 + 1j)
     if case["nrhs"] == 0:
         B, X0 = B[:, 0], X0[:, 0]
+    if case.get("ascale"):
+        A, B = A * 10.0 ** case["ascale"], B * 10.0 ** case["ascale"]
     return A, B, X0, float(np.linalg.cond(X))
 
 
@@ -158,6 +176,25 @@ def build_spread(case):
         B[:, j] = Q[:, j - 1] * (0.5 + rng.random())
     eig_cols = list(range(1, k)) + ([0] if case["first"] == "eig" else [])
     return A, B, np.zeros_like(B), eig_cols
+
+
+def tolerance_active(A, r0, m, tol):
+    """True if the Arnoldi tolerance can end the iteration before the Krylov space K_m(A, r0) is exhausted: some
+    sub-diagonal entry h_{j+1,j} of the (reference) Arnoldi relation is below 4 tol h_{2,1} or below the absolute clip
+    2 tol although the space is not exhausted there. The iterate is then the minimiser over a smaller space and only
+    promises |r| <~ tol cond(A) |r0|."""
+    n = A.shape[0]
+    V = KR.krylov_basis(lambda q: A @ q, r0, min(m, n) + 1, tol=1e-11)
+    k = V.shape[1]
+    if k <= 1:
+        return False
+    H = V.conj().T @ (A @ V)
+    sub = np.abs(np.diag(H, -1))[:min(m, k - 1)]
+    if sub.size and np.any(sub < max(4 * tol * sub[0], 2 * tol)):
+        return True
+    # gmres treats Hessenberg columns whose largest entry is below 10 tol max|H| as zero padding
+    Hm = np.abs(H[:, :min(m, k)])
+    return bool(Hm.size and np.any(Hm.max(axis=0) <= 40 * tol * Hm.max()))
 
 
 def run(A, B, X0, m, tol, x0_none=False):
@@ -210,6 +247,10 @@ def check(case, out):
     out.label("sub:" + sub, "kind:" + case["kind"], "rhs:" + case["rhs"], "x0:" + case["x0"], "nrhs:%d" % case["nrhs"],
               "m:" + ("<n" if m < n else "=n" if m == n else ">n"))
     site = f"gmres:{'multi' if case['nrhs'] >= 2 else 'single'}:{case['rhs']}"
+    if case.get("ascale"):
+        out.label("ascale:%d" % case["ascale"])
+        if case["ascale"] < 0 and tol / 2 > 1e-4 * 10.0 ** case["ascale"]:
+            site += ":small_scale"  # cola's absolute normalisation clip tol / 2 is within 1e-4 of the scale of A
 
     def call(fn):
         try:
@@ -243,8 +284,19 @@ def check(case, out):
             _, rmin, dimk = KR.gmres_optimal(A, bj, x0j, m)
             # cola clips normalisations at tol/2; attainable accuracy past a breakdown is relative to |r0|
             sl = slack(xj, bj) + 10 * tol * r0 + 1e-6 * r0
+            if tol >= 1e-6:
+                # loose tolerances: strict minimality where the tolerance cannot trigger, nothing where it can
+                if tolerance_active(A, bj - A @ x0j, m, tol):
+                    out.inconclusive += 1
+                    out.label("tolerance_active")
+                    continue
+                sl = slack(xj, bj) + 1e-6 * r0
             if r > r0 * (1 + 1e-9) + sl:
                 out.fail(sub, site, "worse_than_x0", f"col {j}: |r|={r:.3e} > |r0|={r0:.3e} (m={m}, n={n})")
+            elif case["kind"] == "normal_wide" and m < grades[j]:
+                # condition number 1e3: a truncated Krylov space is determined only up to ~cond^m eps, two correct
+                # orthonormalisations span measurably different spaces, so minimality is judged only once the space is full
+                out.label("wide:truncated_not_judged")
             elif r > (1 + 1e-6) * rmin + sl:
                 out.fail(sub, site, "not_minimal", f"col {j}: |r|={r:.6e} vs minimum {rmin:.6e} over K_{m} (dim {dimk}), |r0|={r0:.3e}, n={n}")
             if sub == "grade" and m >= grades[j] and r > sl + 1e-6 * r0:
@@ -293,6 +345,9 @@ def check(case, out):
                 continue
             for xj, bj in zip(cols(np.asarray(y)), cols(B)):
                 r = np.linalg.norm(bj - A @ xj)
+                if tol >= 1e-6 and tolerance_active(A, bj, n + 2, tol):
+                    out.inconclusive += 1
+                    continue
                 if not np.isfinite(r) or r > slack(xj, bj) + 1e-6 * np.linalg.norm(bj):
-                    out.fail(sub, "gmres:" + nm, "residual", f"|r|/|b| = {r / np.linalg.norm(bj):.3e} with max_iters = n+2")
+                    out.fail(sub, "gmres:" + nm + (":small_scale" if site.endswith(":small_scale") else ""), "residual", f"|r|/|b| = {r / np.linalg.norm(bj):.3e} with max_iters = n+2")
         return
